@@ -1076,6 +1076,199 @@ Proof. intros Hp x. split; apply Permutation_in; [exact Hp|apply Permutation_sym
 Lemma unused_value {A} (l1 l2 : list A) : (fun _ : list A => tt) l1 = (fun _ : list A => tt) l2.
 Proof. reflexivity. Qed.
 
+
+(* ---- each remaining loop body as a function of the iteration order (model/CmpbOrder.v), with what is order-free *)
+Lemma forallb_perm {A} (g : A -> bool) l1 l2 : Permutation l1 l2 -> forallb g l1 = forallb g l2.
+Proof.
+  induction 1 as [|x l l' _ IH|x y l|l l' l'' _ IH1 _ IH2]; cbn [forallb].
+  - reflexivity.
+  - rewrite IH. reflexivity.
+  - destruct (g x), (g y); reflexivity.
+  - congruence.
+Qed.
+
+(* setJ5Ext / copyReflect: all fields have a destination -> the same filled message; else an error, in every order *)
+Lemma copy_fields_spec {V} (ok : bytes -> bool) (es : list (bytes * V)) : forall m,
+  copy_fields ok es m = if forallb (fun kv => ok (fst kv)) es then Some (set_all es m) else None.
+Proof.
+  unfold copy_fields.
+  assert (Hn : forall l, fold_left (fun acc kv => match acc with
+                                                   | None => None
+                                                   | Some m => if ok (fst kv) then Some (map_set (fst kv) (snd kv) m) else None
+                                                   end) l (@None (list (bytes * V))) = None).
+  { induction l as [|x r IH]; cbn [fold_left]; [reflexivity|exact IH]. }
+  induction es as [|kv r IH]; intro m; cbn [fold_left forallb]; [reflexivity|].
+  destruct (ok (fst kv)); cbn [andb]; [rewrite IH; reflexivity|apply Hn].
+Qed.
+Theorem copy_fields_perm {V} (ok : bytes -> bool) (es1 es2 m : list (bytes * V)) :
+  keys_sorted m -> NoDup (map fst es1) -> Permutation es1 es2 -> copy_fields ok es1 m = copy_fields ok es2 m.
+Proof.
+  intros Hm Hn Hp. rewrite !copy_fields_spec, (forallb_perm _ _ _ Hp), (set_all_perm es1 es2 m Hm Hn Hp). reflexivity.
+Qed.
+
+(* SourceSummary warnings, PrintScope log lines: the same reports up to order *)
+Theorem warn_unused_perm {I W} (used : I -> bool) (warn : I -> W) l1 l2 :
+  Permutation l1 l2 -> Permutation (warn_unused used warn l1) (warn_unused used warn l2).
+Proof. intro H. unfold warn_unused. apply Permutation_map, filter_perm, H. Qed.
+Theorem log_children_perm {C W} (line : C -> W) l1 l2 : Permutation l1 l2 -> Permutation (log_children line l1) (log_children line l2).
+Proof. intro H. unfold log_children. apply Permutation_map, H. Qed.
+
+(* LintAll: whether a report is produced does not depend on the order; the reported file is one that stops the loop *)
+Theorem lint_all_perm {File} (stops : File -> bool) l1 l2 : Permutation l1 l2 ->
+  (lint_all stops l1 = None <-> lint_all stops l2 = None)
+  /\ (forall x, lint_all stops l1 = Some x -> exists y, lint_all stops l2 = Some y /\ stops y = true /\ In y l1).
+Proof. exact (first_failing_perm stops l1 l2). Qed.
+
+(* markOptionImportsUsed: whether the link step fails on an unresolvable extension does not depend on the Range order *)
+Theorem first_unresolved_perm {A} (resolves : A -> bool) l1 l2 : Permutation l1 l2 ->
+  (first_unresolved resolves l1 = None <-> first_unresolved resolves l2 = None).
+Proof. intro Hp. exact (proj1 (first_failing_perm (fun x => negb (resolves x)) l1 l2 Hp)). Qed.
+
+(* map field Range: the callback reports an error for some order iff for every order *)
+Lemma range_entries_none_iff {E Err} (cb : E -> option Err) l : range_entries cb l = None <-> forall e, In e l -> cb e = None.
+Proof.
+  unfold range_entries.
+  assert (Hs : forall r err, fold_left (fun acc e => match acc with Some err => Some err | None => cb e end) r (Some err) = Some err).
+  { induction r as [|x r IH]; intro err; cbn [fold_left]; [reflexivity|apply IH]. }
+  induction l as [|x r IH]; cbn [fold_left].
+  - split; [intros _ e []|reflexivity].
+  - destruct (cb x) as [err|] eqn:Ex.
+    + rewrite Hs. split; [discriminate|]. intro H. rewrite (H x (or_introl eq_refl)) in Ex. discriminate.
+    + rewrite IH. split; [intros H e [<-|Hin]; [exact Ex|apply H, Hin]|intros H e Hin; apply H; right; exact Hin].
+Qed.
+Theorem range_entries_perm {E Err} (cb : E -> option Err) l1 l2 : Permutation l1 l2 ->
+  (range_entries cb l1 = None <-> range_entries cb l2 = None).
+Proof.
+  intro Hp. rewrite !range_entries_none_iff. split; intros H e Hin; apply H;
+    [apply (Permutation_in _ (Permutation_sym Hp))|apply (Permutation_in _ Hp)]; exact Hin.
+Qed.
+
+(* findFileByPath: the decision and the file found do not depend on the key order; the error lists the same names *)
+Theorem find_file_by_path_perm {R} (files : list (bytes * R)) k1 k2 name : Permutation k1 k2 ->
+  match find_file_by_path files k1 name, find_file_by_path files k2 name with
+  | inl a, inl c => a = c
+  | inr x, inr y => Permutation x y
+  | _, _ => False
+  end.
+Proof. intro Hp. unfold find_file_by_path. destruct (map_get name files); [reflexivity|exact Hp]. Qed.
+
+(* buildFieldNode: at most one member of a oneof is populated *)
+Theorem first_member_perm l1 l2 : (List.length l1 <= 1)%nat -> Permutation l1 l2 -> first_member l1 = first_member l2.
+Proof. intros Hl Hp. rewrite (at_most_one_has_one_order l1 l2 Hl Hp). reflexivity. Qed.
+
+(* SourceNode.child: the node built after the key list was taken does not mention it *)
+Theorem child_ignores_options_any {A} k1 k2 (node : A) : child_ignores_options k1 node = child_ignores_options k2 node.
+Proof. reflexivity. Qed.
+
+(* allChildFields aliases / _buildSpec newAliases: insert-unless-present over a map's (distinct) keys *)
+Definition new_entries {P V} (walk : bytes * P -> option V) (c : list (bytes * V)) (order : list (bytes * P)) : list (bytes * V) :=
+  flat_map (fun np => match walk np, map_get (fst np) c with Some s, None => [(fst np, s)] | _, _ => [] end) order.
+Lemma new_entries_keys {P V} (walk : bytes * P -> option V) c order k :
+  In k (map fst (new_entries walk c order)) -> In k (map fst order).
+Proof.
+  unfold new_entries. induction order as [|np r IH]; cbn [flat_map map]; [tauto|].
+  rewrite map_app, in_app_iff. intros [H|H]; [left|right; apply IH, H].
+  destruct (walk np); [|destruct H]. destruct (map_get (fst np) c); [destruct H|]. destruct H as [<-|[]]. reflexivity.
+Qed.
+Lemma new_entries_nodup {P V} (walk : bytes * P -> option V) c order :
+  NoDup (map fst order) -> NoDup (map fst (new_entries walk c order)).
+Proof.
+  unfold new_entries. induction order as [|np r IH]; cbn [flat_map map]; intro Hn; [constructor|].
+  inversion Hn as [|? ? Hni Hr]; subst. rewrite map_app.
+  destruct (walk np) as [s|]; [|apply IH, Hr]. destruct (map_get (fst np) c); [apply IH, Hr|].
+  cbn [map fst app]. constructor; [|apply IH, Hr]. intro H. apply Hni. exact (new_entries_keys walk c r _ H).
+Qed.
+Lemma new_entries_other {P V} (walk : bytes * P -> option V) c n s order :
+  ~ In n (map fst order) -> new_entries walk (map_set n s c) order = new_entries walk c order.
+Proof.
+  unfold new_entries. induction order as [|np r IH]; cbn [flat_map map]; intro Hn; [reflexivity|].
+  rewrite IH by (intro H; apply Hn; right; exact H).
+  rewrite map_get_set_other by (intro E; apply Hn; left; exact E). reflexivity.
+Qed.
+Lemma add_absent_spec {P V} (walk : bytes * P -> option V) order : forall c,
+  NoDup (map fst order) -> add_absent walk order c = set_all (new_entries walk c order) c.
+Proof.
+  unfold add_absent. induction order as [|np r IH]; intros c Hn; cbn [fold_left]; [reflexivity|].
+  cbn [map] in Hn. inversion Hn as [|? ? Hni Hr]; subst.
+  unfold new_entries. cbn [flat_map]. fold (new_entries walk c r).
+  destruct (walk np) as [s|]; [|cbn [app]; apply IH, Hr].
+  destruct (map_get (fst np) c) eqn:G; [cbn [app]; apply IH, Hr|].
+  cbn [app]. rewrite IH by exact Hr. rewrite (new_entries_other walk c (fst np) s r Hni).
+  unfold set_all. reflexivity.
+Qed.
+Theorem add_absent_perm {P V} (walk : bytes * P -> option V) o1 o2 (c : list (bytes * V)) :
+  keys_sorted c -> NoDup (map fst o1) -> Permutation o1 o2 -> add_absent walk o1 c = add_absent walk o2 c.
+Proof.
+  intros Hc Hn Hp.
+  rewrite !add_absent_spec by (try exact Hn; apply (Permutation_NoDup (Permutation_map fst Hp)); exact Hn).
+  apply set_all_perm; [exact Hc|apply new_entries_nodup; exact Hn|].
+  unfold new_entries. clear Hn. induction Hp as [|x l l' _ IH|x y l|l l' l'' _ IH1 _ IH2]; cbn [flat_map].
+  - reflexivity.
+  - apply Permutation_app_head. exact IH.
+  - rewrite !app_assoc. apply Permutation_app_tail. apply Permutation_app_comm.
+  - etransitivity; eassumption.
+Qed.
+
+(* listChildren / listAttributes / listBlocks: (filtered) keys, then sort.Strings *)
+Theorem list_fields_perm {V} (can : V -> bool) (l1 l2 : list (bytes * V)) : Permutation l1 l2 -> list_fields can l1 = list_fields can l2.
+Proof. intro Hp. unfold list_fields. apply sort_strings_perm. apply Permutation_map, filter_perm, Hp. Qed.
+
+(* checkDuplicateExports: the keys are sorted before the first duplicate is looked for *)
+Theorem check_duplicate_exports_perm {V} (pkg_exports : list (bytes * V)) k1 k2 :
+  Permutation k1 k2 -> check_duplicate_exports pkg_exports k1 = check_duplicate_exports pkg_exports k2.
+Proof. intro Hp. unfold check_duplicate_exports. rewrite (sort_strings_perm k1 k2 Hp). reflexivity. Qed.
+
+(* ... and on a valid bundle it never fires, whatever the listing order put before the file: checkDuplicateExports is not a
+   step of [load] for that reason *)
+Lemma nodup_app_disjoint {A} (l1 l2 : list A) x : NoDup (l1 ++ l2) -> In x l1 -> In x l2 -> False.
+Proof.
+  induction l1 as [|a r IH]; cbn [app In]; intros Hn H1 H2; [destruct H1|].
+  inversion Hn as [|? ? Hni Hr]; subst. destruct H1 as [->|H1]; [apply Hni, in_or_app; right; exact H2|exact (IH Hr H1 H2)].
+Qed.
+Theorem check_duplicate_exports_valid {F} (pre post : list (@srcfile F)) f :
+  valid_pkg (pre ++ f :: post) -> check_duplicate_exports (collect_exports pre) (f_exports f) = None.
+Proof.
+  intros [Hn _]. unfold check_duplicate_exports.
+  destruct (find _ (sort_strings (f_exports f))) as [n|] eqn:E; [exfalso|reflexivity].
+  apply find_some in E. destruct E as [Hin Hg].
+  apply (Permutation_in _ (isort_perm (fun x => x) bleb (f_exports f))) in Hin.
+  assert (Hpre : In n (map fst (all_exports pre))).
+  { destruct (in_dec (list_eq_dec N.eq_dec) n (map fst (all_exports pre))) as [H|H]; [exact H|].
+    rewrite collect_exports_as_set_all, (set_all_get_notin _ _ _ H) in Hg. discriminate. }
+  assert (Eall : all_exports (pre ++ f :: post) = (all_exports pre ++ (file_exports f ++ all_exports post))%list)
+    by (unfold all_exports; rewrite map_app, concat_app; reflexivity).
+  rewrite Eall, map_app, map_app in Hn.
+  apply (nodup_app_disjoint _ _ n Hn Hpre). apply in_or_app. left.
+  unfold file_exports. rewrite map_map. cbn [fst]. rewrite map_id. exact Hin.
+Qed.
+
+(* every one of these model functions RUN on two iteration orders of the same collection *)
+Definition loop_probes_statement : Prop :=
+  let e := [([98], 2); ([97], 1); ([99], 3)] in
+  let ok := fun k : bytes => negb (beqb k [122]) in
+  copy_fields ok e [] = copy_fields ok (rev e) [] /\ copy_fields ok e [] = Some [([97], 1); ([98], 2); ([99], 3)]
+  /\ copy_fields ok (([122], 9) :: e) [] = None /\ copy_fields ok (e ++ [([122], 9)]) [] = None
+  /\ warn_unused (fun i : N => N.eqb i 2) (fun i => [i]) [1; 2; 3] = [[1]; [3]] /\ warn_unused (fun i : N => N.eqb i 2) (fun i => [i]) [3; 2; 1] = [[3]; [1]]
+  /\ log_children (fun c : N => N.add c 1) [1; 2] = [2; 3] /\ log_children (fun c : N => N.add c 1) [2; 1] = [3; 2]
+  /\ lint_all (fun f : N => N.ltb 5 f) [1; 7; 9] = Some 7 /\ lint_all (fun f : N => N.ltb 5 f) [9; 7; 1] = Some 9 /\ lint_all (fun f : N => N.ltb 5 f) [1; 2] = None
+  /\ first_unresolved (fun x : N => N.ltb x 5) [1; 7; 9] = Some 7 /\ first_unresolved (fun x : N => N.ltb x 5) [9; 1; 7] = Some 9
+  /\ range_entries (fun x : N => if N.ltb 5 x then Some x else None) [1; 7; 9] = Some 7
+  /\ range_entries (fun x : N => if N.ltb 5 x then Some x else None) [9; 7; 1] = Some 9
+  /\ range_entries (fun x : N => if N.ltb 5 x then Some x else None) [2; 1] = None
+  /\ find_file_by_path [([97], 1)] [[97]; [98]] [97] = inl 1 /\ find_file_by_path [([97], 1)] [[98]; [97]] [97] = inl 1
+  /\ find_file_by_path [([97], 1)] [[98]; [97]] [99] = inr [[98]; [97]]
+  /\ first_member [[120]] = [120] /\ first_member [] = []
+  /\ child_ignores_options [[97]; [98]] 5 = child_ignores_options [[98]; [97]] 5
+  /\ add_absent (fun np : bytes * N => if N.eqb (snd np) 0 then None else Some (snd np)) [([98], 2); ([97], 0); ([99], 3)] [([99], 7)]
+     = [([98], 2); ([99], 7)]
+  /\ add_absent (fun np : bytes * N => if N.eqb (snd np) 0 then None else Some (snd np)) [([99], 3); ([97], 0); ([98], 2)] [([99], 7)]
+     = [([98], 2); ([99], 7)]
+  /\ list_fields (fun v : N => N.ltb 1 v) e = [[98]; [99]] /\ list_fields (fun v : N => N.ltb 1 v) (rev e) = [[98]; [99]]
+  /\ check_duplicate_exports e [[99]; [120]; [97]] = Some [97] /\ check_duplicate_exports e [[97]; [99]; [120]] = Some [97]
+  /\ check_duplicate_exports e [[121]; [120]] = None.
+Lemma loop_probes_compute : loop_probes_statement.
+Proof. unfold loop_probes_statement. cbv zeta. repeat split; vm_compute; reflexivity. Qed.
+
 (* how each unordered iteration of the compile/print path is accounted for. EVERY row carries a proved
    statement about the shape of loop body named in [expected_bodies] (which is compared with the shapes
    regenerated from the Go source): an order parameter of the model with its irrelevance theorem, a
@@ -1091,60 +1284,62 @@ Inductive site_class :=
 Definition model_order_sites : list ((string * string * string * string * string) * site_class) :=
   [ (("j5convert", "fields.go", "RangeField", "protoreflect.Message.Range", "pt"),
       Insensitive "setJ5Ext copies each populated field of the Ext message to the same-named field of a fresh message"
-        _ assign_distinct_fields_commute);
+        _ (@copy_fields_perm bytes));
     (("j5convert", "summary_walk.go", "SourceSummary", "range-map", "importMap.vals"),
       Unobserved "one `import not used` warning per unused import (ErrCollector: the lint report); the summary is built from slices before the loop"
-        _ (@report_loop_perm bytes bytes));
+        _ (@warn_unused_perm bytes bytes));
     (("optionreflect", "builder.go", "Builder.OptionsFor", "protoreflect.Message.Range", "srcReflect"),
       Modelled "options_for / field_options" _ (conj options_for_perm field_options_perm));
     (("optionreflect", "walk.go", "walkOptionMap", "protoreflect.Map.Range", "mp"),
       Modelled "map_entries" _ map_entries_perm);
     (("protobuild", "linker.go", "markOptionImportsUsed", "proto.RangeExtensions", "opts"),
-      Insensitive "marks imports as used; stops at the first extension whose file is not imported, which C07_links_in_isolation excludes"
-        _ (@first_unresolved_none opt));
+      Insensitive "marks imports as used; stops at the first extension whose file is not imported: whether it stops does not depend on the order (first_unresolved_perm); it never stops when every extension resolves (first_unresolved_none; C07_links_in_isolation for what the converter emits)"
+        _ (conj (@first_unresolved_perm opt) (@first_unresolved_none opt)));
     (("protobuild", "lint.go", "LintAll", "range-map", "pkg.Files"),
       Unobserved "LintAll links each file and returns the report of the first one with errors: lint path only (C14 observes CompilePackage and PrintFile)"
-        _ (@first_failing_perm bytes));
+        _ (@lint_all_perm bytes));
     (("protobuild", "packages.go", "Package.includeIO", "range-map", "summary.Exports"),
       Modelled "include_io" _ (@include_io_perm bytes));
+    (("protobuild", "packages.go", "Package.checkDuplicateExports", "maps.Keys", "file.Summary.Exports"),
+      Modelled "check_duplicate_exports (keys, sort.Strings, first name already exported)" _ (@check_duplicate_exports_perm bytes));
     (("protobuild", "packages.go", "PackageSet.findFileByPath", "maps.Keys", "pkg.Files"),
       Unobserved "the keys are joined into the text of a `file not found` error; found / not found is decided before"
-        _ (@keys_listed_perm bytes));
+        _ (@find_file_by_path_perm bytes));
     (("protobuild", "packages.go", "PackageSet.resolveDependencies", "range-map", "deps"),
       Modelled "range_deps (load)" _ (@compile_total_deterministic));
     (("protobuild", "packages.go", "PackageSet.CompilePackage", "range-map", "pkg.Files"),
       Modelled "range_files (compile_package) / sort_names" _ sort_names_perm);
     (("sourcewalk", "property.go", "buildFieldNode", "protoreflect.Message.Range", "tn"),
       Insensitive "ranges over the populated members of the Field.type oneof: at most one iteration"
-        _ (@at_most_one_has_one_order bytes));
+        _ first_member_perm);
     (("sourcewalk", "sourcewalk.go", "SourceNode.child", "maps.Keys", "walk.Source.Children"),
       Unobserved "assigned to a variable that is read only by a log line under `if false`"
-        _ (@unused_value bytes));
+        _ (@child_ignores_options_any bytes));
     (* the front end (internal/bcl/**, lib/j5reflect), scanned since the audit *)
     (("j5reflect", "property_set.go", "copyReflect", "protoreflect.Message.Range", "a"),
-      Insensitive "copies each populated field of a into the same field of b: assignments to distinct fields"
-        _ assign_distinct_fields_commute);
+      Insensitive "copies each populated field of a into the same field of b (panic when b lacks it): assignments to distinct fields"
+        _ (@copy_fields_perm bytes));
     (("j5reflect", "type_map.go", "mutableMapField.Range", "protoreflect.Map.Range", "mapField.value"),
       Unobserved "reader API of map fields: calls the callback per entry and stops at its first error (encoder side; the walker only sets map entries)"
-        _ (@first_failing_perm bytes));
+        _ (@range_entries_perm bytes bytes));
     (("j5reflect", "type_map.go", "leafMapField.Range", "protoreflect.Map.Range", "mapField.value"),
       Unobserved "reader API of map fields: calls the callback per entry and stops at its first error (encoder side; the walker only sets map entries)"
-        _ (@first_failing_perm bytes));
+        _ (@range_entries_perm bytes bytes));
     (("walker/schema", "container_set.go", "containerSet.allChildFields", "range-map", "blockSchema.spec.Aliases"),
       Insensitive "inserts each alias under its own name unless present: the keys of the ranged map are distinct, no key is written twice"
-        _ assign_distinct_fields_commute);
+        _ (@add_absent_perm bytes bytes));
     (("walker/schema", "container_set.go", "containerSet.listChildren", "maps.Keys", "fields"),
-      Modelled "keys then sort.Strings" _ sort_names_perm);
+      Modelled "list_fields (all keys, then sort.Strings)" _ (@list_fields_perm bytes));
     (("walker/schema", "container_set.go", "containerSet.listAttributes", "range-map", "fields"),
-      Modelled "filtered keys then sort.Strings" _ sort_names_perm);
+      Modelled "list_fields (filtered keys, then sort.Strings)" _ (@list_fields_perm bytes));
     (("walker/schema", "container_set.go", "containerSet.listBlocks", "range-map", "fields"),
-      Modelled "filtered keys then sort.Strings" _ sort_names_perm);
+      Modelled "list_fields (filtered keys, then sort.Strings)" _ (@list_fields_perm bytes));
     (("walker/schema", "schemaset.go", "SchemaSet._buildSpec", "range-map", "newAliases"),
       Insensitive "copies each new alias into blockSpec.Aliases unless present: distinct keys, no key written twice"
-        _ assign_distinct_fields_commute);
+        _ (@add_absent_perm bytes bytes));
     (("walker/schema", "scope.go", "Scope.PrintScope", "range-map", "sw.blockSet.allChildFields()"),
       Unobserved "one debug log line per child field (verbose mode only)"
-        _ (@report_loop_perm bytes bytes)) ].
+        _ (@log_children_perm bytes bytes)) ].
 
 (* every unordered iteration found by the translator is classified, and nothing else is claimed:
    equality as SETS (moving a loop inside its file does not matter; a new loop, or one that
@@ -1167,7 +1362,7 @@ Proof. vm_compute. reflexivity. Qed.
    collection) breaks this lemma *)
 Definition expected_bodies : list (okey * string * bool) :=
   [ (("j5convert", "fields.go", "RangeField", "protoreflect.Message.Range", "pt"), "assign;return", false);
-    (("j5convert", "summary_walk.go", "SourceSummary", "range-map", "importMap.vals"), "if(cond){continue};assign;decl;if(cond){assign};call:ec.WarnPos", false);
+    (("j5convert", "summary_walk.go", "SourceSummary", "range-map", "importMap.vals"), "if(cond){continue};assign;call:ec.WarnPos", false);
     (("j5reflect", "property_set.go", "copyReflect", "protoreflect.Message.Range", "a"), "assign;if(cond){call:panic};call:b.Set;return", false);
     (("j5reflect", "type_map.go", "mutableMapField.Range", "protoreflect.Map.Range", "mapField.value"), "assign;assign;assign;return", false);
     (("j5reflect", "type_map.go", "leafMapField.Range", "protoreflect.Map.Range", "mapField.value"), "assign;assign;assign;return", false);
@@ -1176,6 +1371,7 @@ Definition expected_bodies : list (okey * string * bool) :=
     (("protobuild", "linker.go", "markOptionImportsUsed", "proto.RangeExtensions", "opts"), "assign;assign;assign;if(cond){assign;return};return", false);
     (("protobuild", "lint.go", "LintAll", "range-map", "pkg.Files"), "assign;if(cond){return};if(cond){if(cond){assign;if(cond){return};return}else{return}}", false);
     (("protobuild", "packages.go", "Package.includeIO", "range-map", "summary.Exports"), "mapset", false);
+    (("protobuild", "packages.go", "Package.checkDuplicateExports", "maps.Keys", "file.Summary.Exports"), "assigned", true);
     (("protobuild", "packages.go", "PackageSet.findFileByPath", "maps.Keys", "pkg.Files"), "arg of strings.Join", false);
     (("protobuild", "packages.go", "PackageSet.resolveDependencies", "range-map", "deps"), "assign;if(cond){return};mapset", false);
     (("protobuild", "packages.go", "PackageSet.CompilePackage", "range-map", "pkg.Files"), "append", true);
@@ -1199,7 +1395,7 @@ Definition collected_keys_are_sorted : bool :=
   forallb (fun r => match r with ((p, f, fn, k, e), body, sorted) =>
      negb (String.eqb body "append" || String.eqb body "if(cond){append}" || String.eqb body "append;return"
            || String.eqb body "assign;assign;assign;assign;assign;append;return"
-           || (String.eqb body "assigned" && String.eqb fn "containerSet.listChildren")) || sorted end)
+           || (String.eqb body "assigned" && (String.eqb fn "containerSet.listChildren" || String.eqb fn "Package.checkDuplicateExports"))) || sorted end)
     MapRangeGen.bodies.
 Lemma collected_keys_sorted : collected_keys_are_sorted = true.
 Proof. vm_compute. reflexivity. Qed.
